@@ -56,7 +56,7 @@ pub fn run(ctx: Ctx) -> Report {
         let password = "correct horse battery staple";
         let expected: [u8; 32] = Sha256::digest(password.as_bytes()).into();
         let mut job = 0u64;
-        let mut mine = |job: &mut u64| {
+        let mine = |job: &mut u64| {
             *job += 1;
             (*job as usize) % nshards == shard
         };
